@@ -207,13 +207,17 @@ def rule_B2(ctx: Ctx) -> None:
         nb = g.target.elts[0].id if isinstance(g.target, ast.Tuple) else g.target.id
         keys = L.conj_atom_keys(ast.BoolOp(op=ast.And(), values=list(g.ifs))) if g.ifs else set()
         want = L.bounds_atoms(nb, "grid_shape")
-        ctx.judge(f, None if keys is None else want <= keys, {"filter": [X.U(i)[:120] for i in g.ifs], "missing_bounds": len(want - (keys or set()))},
+        n_missing = len(want - (keys or set()))
+        # some of the four bounds present: a located filter with one missing (VIOLATION); none of them matched: the filter is written in a form this
+        # rule does not read (decided by B10)
+        ctx.judge(f, None if keys is None or n_missing == len(want) else want <= keys, {"filter": [X.U(i)[:120] for i in g.ifs], "missing_bounds": n_missing},
                   exp, "a neighbour outside the grid can be chosen: negative indices wrap around / IndexError", node=comps[0])
         # iter is zip(current + NEIGHBORS_MASK, NEIGHBORS_MASK): delta belongs to its neighbour
         it = g.iter
         ok = isinstance(it, ast.Call) and dotted_of(it.func) == "zip" and len(it.args) == 2 and X.U(it.args[1]).endswith("NEIGHBORS_MASK") \
             and isinstance(it.args[0], ast.BinOp) and isinstance(it.args[0].op, ast.Add) and X.U(it.args[0].right).endswith("NEIGHBORS_MASK")
-        ctx.judge(f, ok, {"iter": X.U(it)}, "each candidate is paired with its own delta: zip(current + NEIGHBORS_MASK, NEIGHBORS_MASK)")
+        is_zip = isinstance(it, ast.Call) and dotted_of(it.func) == "zip"
+        ctx.judge(f, ok if is_zip else None, {"iter": X.U(it)}, "each candidate is paired with its own delta: zip(current + NEIGHBORS_MASK, NEIGHBORS_MASK)")
     h = ctx.index.func(f"{GEN}.get_neighbors_in_bounds")
     exp = "get_neighbors_in_bounds keeps the rows of coord + NEIGHBORS_MASK whose every component c satisfies 0 <= c < grid_shape (reduced with .all(axis=1))"
     rets = X.returns_of(h.node)
@@ -499,6 +503,11 @@ def rule_B6(ctx: Ctx) -> None:
     for n in gens:
         f = _gen(ctx, n)
         ctx.judge(f, f.is_static, {"staticmethod": f.is_static}, "generators are static methods (picklable for the worker pool)")
+        # the registry key, the serialised `__name__` of a configuration's generator and the recorded func_name all rest on the function keeping
+        # the name it is defined under: a decorator that copies another function's metadata onto it (functools.wraps / update_wrapper) renames it
+        renaming = [d.name for d in f.decorators if d.name.rsplit(".", 1)[-1] in ("wraps", "update_wrapper")]
+        ctx.judge(f, not renaming, {"renaming_decorators": renaming}, "a generator's __name__ is the name it is registered under",
+                  "a configuration naming this generator serialises as the other one: it reloads with the other function, and both share hash and file name")
 
 
 def rule_B7(ctx: Ctx) -> None:
@@ -613,13 +622,192 @@ def rule_B9(ctx: Ctx) -> None:
                   "DFS connections are removed by the combination: the maze is no longer connected although the DFS metadata says so")
 
 
+class _Uniform:
+    """one cell of `np.random.rand(...)`: a value in [0, 1).  Comparisons with a threshold are decided when the threshold leaves no choice
+    (`U < 0` never, `U < 1` always, ...), otherwise they are a choice point of the exploration"""
+
+    def __init__(self, sc) -> None:
+        self.sc = sc
+
+    def _lt(self, p, strict_self_small: bool):
+        # U < p (strict_self_small) or U <= p
+        if p >= 1:
+            return True
+        if p < 0 or (p == 0 and strict_self_small):
+            return False
+        return bool(self.sc.choose(2))
+
+    def __lt__(self, p):
+        return self._lt(p, True)
+
+    def __le__(self, p):
+        return self._lt(p, False)
+
+    def __gt__(self, p):
+        return not self._lt(p, False)
+
+    def __ge__(self, p):
+        return not self._lt(p, True)
+
+
+def _generator_outcomes(index, name, shape, kwargs, max_depth, max_runs=6000):
+    """every outcome of one generator call under all sequences of random draws (bounded by max_depth choice points):
+    (complete results as (connection list data, generation_meta), raised exception names, pruned branches, undecided reason)"""
+    from sa.absnp import MODELS, Arr, _full
+    from sa.absobj import AbstractClass
+    from sa.choice import PRUNED, explore, models
+    from sa.fold import EvalRaised, Obj, Unknown
+
+    def run(sc):
+        maze_ac = AbstractClass(index, f"{LM}.LatticeMaze", max_steps=400_000, extra_calls={**MODELS, **models(sc)})
+        ac = AbstractClass(index, NS, max_steps=600_000, extra_calls={
+            **MODELS, **models(sc), "LatticeMaze": lambda **kw: Obj("LatticeMaze", dict(kw)),
+            "np.random.rand": lambda *sh: _elementwise_fill(sh, sc)})
+        ac.delegates["LatticeMaze"] = maze_ac
+        return ac.call(None, name, [Arr(list(shape))], dict(kwargs))
+
+    def _elementwise_fill(sh, sc):
+        a = _full([int(x) for x in sh], None)
+
+        def fill(d):
+            for i, x in enumerate(d):
+                if isinstance(x, list):
+                    fill(x)
+                else:
+                    d[i] = _Uniform(sc)
+        fill(a.data)
+        return a
+    import time as _time
+
+    done, raised, pruned, unk = [], [], 0, None
+    t0 = _time.process_time()
+    try:
+        for _, out in explore(run, max_runs=max_runs, max_depth=max_depth):
+            if _time.process_time() - t0 > 90:
+                raise Unknown("exploration budget (90 s of cpu time per case) exceeded")
+            if out is PRUNED:
+                pruned += 1
+            elif isinstance(out, EvalRaised):
+                raised.append(out.exc_name)
+            elif isinstance(out, Obj) and isinstance(out.attrs.get("connection_list"), Arr):
+                done.append((out.attrs["connection_list"], out.attrs.get("generation_meta")))
+            else:
+                done.append((None, repr(out)[:80]))
+    except Unknown as e:
+        unk = str(e)[:160]
+    return done, raised, pruned, unk
+
+
+def _graph_of(cl, shape):
+    "(edges inside the grid, edges leaving the grid, bad cells) of an abstract connection list"
+    r, c = shape
+    inside, leaving, odd = set(), [], []
+    if cl is None or cl.shape != (2, r, c):
+        return None
+    for d in range(2):
+        for i in range(r):
+            for j in range(c):
+                v = cl.data[d][i][j]
+                if v not in (True, False, 0, 1):
+                    odd.append((d, i, j, repr(v)[:20]))
+                elif v:
+                    b = (i + 1, j) if d == 0 else (i, j + 1)
+                    (inside.add(((i, j), b)) if b[0] < r and b[1] < c else leaving.append(((i, j), b)))
+    return inside, leaving, odd
+
+
+def _tree_job(index, job):
+    "one (generator, grid, kwargs, depth) case of B10: deviations of its outcomes from 'a spanning tree of the requested grid'"
+    from sa import absmaze as AM
+
+    name, shape, kwargs, depth, want = job
+    done, raised, pruned, unk = _generator_outcomes(index, name, shape, kwargs, depth)
+    bad = []
+    for cl, meta in done:
+        g = _graph_of(cl, shape)
+        if g is None:
+            bad.append({"found": "connection list of another shape" if cl is not None else meta, "expected": [2, *shape]})
+            continue
+        inside, leaving, odd = g
+        why = []
+        if leaving:
+            why.append(f"connection leaves the grid: {leaving[:2]}")
+        if odd:
+            why.append(f"non-boolean cells: {odd[:2]}")
+        n_cells = shape[0] * shape[1]
+        if want == "tree":
+            reach = AM.bfs(inside, (0, 0))
+            if len(inside) != n_cells - 1:
+                why.append(f"{len(inside)} connections, a spanning tree of {n_cells} cells has {n_cells - 1}")
+            if len(reach) != n_cells:
+                why.append(f"only {len(reach)} of {n_cells} cells are connected to (0, 0)")
+        elif want == "empty" and inside:
+            why.append(f"{len(inside)} connections with p = 0")
+        elif want == "full" and len(inside) != len(AM.lattice_edges(*shape)):
+            why.append(f"{len(inside)} of {len(AM.lattice_edges(*shape))} lattice connections with p = 1")
+        if why:
+            bad.append({"connections": sorted(inside)[:12], "why": why})
+    for r_ in raised:
+        bad.append({"found": f"raises {r_}"})
+    return {"case": [name, list(shape), {k: v for k, v in kwargs.items()}], "complete": len(done), "pruned": pruned, "deviations": bad[:2], "undecided": unk}
+
+
+def rule_B10(ctx: Ctx) -> None:
+    """bounded semantic check of the generators (E15, nondeterministic): each generator is interpreted on small grids once per sequence of
+    outcomes of its random draws.  gen_dfs / gen_prim (default arguments, and every explicit start cell) and gen_wilson (random walks explored
+    up to a depth) must return a spanning tree of the requested grid with no connection leaving it; gen_percolation / gen_dfs_percolation
+    keep no connection for p = 0 (percolation) and every lattice connection for p = 1, never one that leaves the grid"""
+    from sa import absmaze as AM
+
+    thorough = ctx.tier == "thorough"
+    jobs = []
+    grids = [(2, 2), (2, 3), (3, 2), (3, 3), (2, 4), (4, 2), (1, 3), (3, 1)] + ([(3, 4), (4, 3), (2, 5)] if thorough else [])
+    for g in grids:
+        jobs.append(("gen_dfs", g, {}, None, "tree"))
+    for g in [(2, 2), (2, 3), (3, 2)] + ([(3, 3)] if thorough else []):
+        for cell in AM.cells(g):
+            jobs.append(("gen_dfs", g, {"start_coord": cell}, None, "tree"))
+    for g in [(2, 2), (2, 3), (3, 2)]:
+        jobs.append(("gen_prim", g, {}, None, "tree"))
+    for g, depth in [((2, 2), 9), ((2, 3), 8 if not thorough else 10), ((3, 2), 8 if not thorough else 10)]:
+        jobs.append(("gen_wilson", g, {}, depth, "tree"))
+    for g in [(2, 2), (2, 3), (3, 2)]:
+        jobs.append(("gen_percolation", g, {"p": 0.0}, None, "empty"))
+        jobs.append(("gen_percolation", g, {"p": 1.0}, None, "full"))
+        jobs.append(("gen_dfs_percolation", g, {"p": 1.0}, None, "full"))
+        jobs.append(("gen_dfs_percolation", g, {"p": 0.0}, None, "tree"))
+    jobs.append(("gen_percolation", (2, 2), {"p": 0.5}, None, "any"))
+    have = set(ctx.index.cls(NS).methods)
+    jobs = [j for j in jobs if j[0] in have]
+    res = AM.parallel_map(lambda j: _tree_job(ctx.index, j), jobs, min_parallel=8)
+    by_gen: dict = {}
+    for j, r in zip(jobs, res):
+        by_gen.setdefault(j[0], []).append(r)
+    for name, rs in sorted(by_gen.items()):
+        f = _gen(ctx, name)
+        bad = [{**d, "case": r["case"]} for r in rs for d in r["deviations"]]
+        unk = [f"{r['case']}: {r['undecided']}" for r in rs if r["undecided"]]
+        empty = [r["case"] for r in rs if not r["complete"] and not r["undecided"] and not r["deviations"]]
+        ctx.judge(f, False if bad else None if (unk or empty) else True,
+                  {"cases": len(rs), "complete_outcomes": sum(r["complete"] for r in rs), "pruned_walks": sum(r["pruned"] for r in rs), "deviations": bad[:2],
+                   "undecided": unk[:2], "cases_without_a_complete_outcome": empty[:2]},
+                  "every outcome of the random draws is a connection structure of the requested shape with no connection leaving the grid; a spanning tree "
+                  "for gen_dfs / gen_prim / gen_wilson with default arguments; no / every lattice connection for percolation with p = 0 / p = 1",
+                  "a generated maze has a cycle, an unreachable cell, a connection out of the grid or the wrong shape")
+    ok_all = all(not r["deviations"] and not r["undecided"] and r["complete"] for r in res)
+    if ok_all:
+        ctx.cover([f"{NS}.{n_}" for n_ in by_gen], by="C01.B10", supersedes=["C01.B2", "C01.B3", "C01.B4", "C01.B5", "C01.B7"], whole_rules=["C01.B2", "C01.B3"],
+                  bound=f"{len(jobs)} generator cases, {sum(r['complete'] for r in res)} complete outcomes over all draw sequences on grids up to 3x3 / 2x4")
+
+
 RULES = [
+    Rule("C01.B10", rule_B10, floor=4, doc="bounded semantic check: every outcome of every generator's draws on small grids is well formed (spanning tree where promised)"),
     Rule("C01.B1", rule_B1, floor=5, doc="boundary sanitisation (taint)"),
     Rule("C01.B2", rule_B2, floor=8, doc="lesser-endpoint idiom on in-bounds neighbours"),
     Rule("C01.B3", rule_B3, floor=5, doc="edge/visit pairing"),
     Rule("C01.B4", rule_B4, floor=3, doc="allocation"),
     Rule("C01.B5", rule_B5, floor=4, doc="percolation threshold form"),
-    Rule("C01.B6", rule_B6, floor=11, doc="registry"),
+    Rule("C01.B6", rule_B6, floor=16, doc="registry"),
     Rule("C01.B7", rule_B7, floor=7, doc="default completeness of DFS"),
     Rule("C01.B8", rule_B8, floor=2, doc="start cell inside the grid"),
     Rule("C01.B9", rule_B9, floor=3, doc="delegating generators forward their arguments; percolation only adds edges"),
